@@ -61,9 +61,11 @@ def events_for(variant, thorough):
     if thorough:
         ev += [("click", b, x, y) for b in (1, 3, 2) for x in XS for y in YS]
         ev += [("click", 1, x, Y_EMPTY) for x in (XS[1], XS[3])]
+        ev += [("click", b, 0.0, y) for b in (1, 2) for y in (YS[0], YS[3])]
     else:
         ev += [("click", 1, x, y) for x in XS for y in YS]
         ev += [("click", 1, XS[1], Y_EMPTY)]
+        ev += [("click", 1, 0.0, YS[3]), ("click", 2, 0.0, YS[1])]      # exactly at the left edge of the default frequency range
         ev += [("click", 3, XS[1], YS[1]), ("click", 3, XS[3], YS[0])]
         ev += [("click", 2, x, YS[1]) for x in XS]
     if variant == "FDD":
